@@ -266,6 +266,16 @@ func (x *exch) cutOracle(fail func(what, msg string, got, want interface{})) {
 		complete, got = s.CallErr == "" && !s.NoResp, s.Out
 	}
 	where := "in-body"
+	if x.H2 != nil {
+		where = "h2:" + x.H2.After + fmt.Sprintf(":declared-length=%v", x.H2.Declare)
+		if complete {
+			fail("cut-delivered-as-complete:"+where, fmt.Sprintf("the HTTP/2 response stream was cut (%s) after %d of %d body bytes, before END_STREAM, but was delivered as a complete response", x.H2.After, x.CutAt, len(x.A.Body)), digest(got), "an error")
+		}
+		if !bytes.HasPrefix(x.A.Body, got) {
+			fail("cut-not-prefix", "bytes delivered from a cut response are not a prefix of the body", digest(got), digest(x.A.Body))
+		}
+		return
+	}
 	switch {
 	case x.CutAt < x.hdrLen:
 		where = "in-head"
